@@ -12,6 +12,8 @@ package sched
 
 import (
 	"fmt"
+	"os"
+	"strconv"
 	"reflect"
 	"sort"
 	"strings"
@@ -79,8 +81,12 @@ func GID(site string, who int) string {
 
 // New returns a scheduler; the consumer goroutine "c" must be registered with Go().
 func New() *Sched {
+	to := 300 * time.Second // generous: a starved process must not look like a hang
+	if v, err := strconv.Atoi(os.Getenv("VERIF_SETTLE_S")); err == nil && v > 0 {
+		to = time.Duration(v) * time.Second // the driver shortens it after a first hang has been recorded
+	}
 	return &Sched{arrive: make(chan arrival, 1024), parked: map[string]*Pending{}, exited: map[string]bool{},
-		running: map[string]bool{}, Timeout: 300 * time.Second, CtxDone: func() bool { return false }}
+		running: map[string]bool{}, Timeout: to, CtxDone: func() bool { return false }}
 }
 
 // Go marks goroutine g as running (it will park or exit by itself).
